@@ -148,6 +148,47 @@ func vhC05Post(root string, rows []vhRow, tch []vhTouched, acked bool) {
 		}
 		vAssert("C05.index.agrees_with_file", found)
 	}
+	// Files left behind by the crash must not leak into later writes: every
+	// stored object, and every object the interrupted call was about, is
+	// written once more with a shorter content, one object is deleted (the
+	// schema shrinks), and a fresh handle — without Close — reads everything
+	// back from the files.
+	var rewritten []string
+	for _, o := range objs {
+		rewritten = append(rewritten, o.UUID())
+	}
+	for _, t := range tch {
+		if vhC05Contains(objs, t.uuid) == nil {
+			rewritten = append(rewritten, t.uuid)
+		}
+	}
+	for _, u := range rewritten {
+		short := &vObj{}
+		short.Initialize(u)
+		vAssert("C05.rewrite.ok", db2.InsertOrUpdate(short) == nil)
+	}
+	if len(rewritten) > 0 {
+		d := &vObj{}
+		d.Initialize(rewritten[0])
+		vAssert("C05.rewrite.delete", db2.Delete(d) == nil)
+		if db2.Schema != nil { // async collections commit at flush time
+			vAssert("C05.rewrite.flush", db2.FlushAllAndCommit(&vObj{}) == nil)
+		}
+		fresh := Open(root)
+		_, ferr := fresh.Schema(&vObj{})
+		vAssert("C05.rewrite.schema_readable", ferr == nil)
+		for _, u := range rewritten[1:] {
+			g, gerr := fresh.GetByUUID(&vObj{}, u)
+			vAssert("C05.rewrite.readable", gerr == nil)
+			if gerr == nil {
+				vAssert("C05.rewrite.content", g.(*vObj).A == 0 && g.(*vObj).S == "")
+			}
+		}
+		objs = objs[:0]
+		for range rewritten[1:] {
+			objs = append(objs, nil)
+		}
+	}
 	// the recovered database keeps working: one more write, a clean restart
 	nw := &vObj{A: 12345, S: "s", U: 99}
 	vAssert("C05.after.write", db2.InsertOrUpdate(nw) == nil)
